@@ -126,6 +126,10 @@ void LLVMVisitor::init(const vec_basic &inputs, const vec_basic &outputs,
                        const bool symbolic_cse, unsigned opt_level)
 {
     executionengine.reset();
+    // a previous init may have thrown before it cleared these maps; their
+    // values point into the context that is replaced below
+    symbol_ptrs.clear();
+    replacement_symbol_ptrs.clear();
     llvm::InitializeNativeTarget();
     llvm::InitializeNativeTargetAsmPrinter();
     llvm::InitializeNativeTargetAsmParser();
